@@ -40,9 +40,31 @@ static void classify(uint64_t h, int n) {
     if (n >= 4) COUNT("depth>=4");
 }
 
+// kind 5: an index one rule away from valid (deleted sub-sequence under a pentagon, a 7 inside the resolution, ...). The partition clause in the
+// library's own terms: whatever isValidCell accepts must be listed among the children of its parent — an accepted index that no parent
+// lists is a cell outside the tree.
+static void checkNearValid(const Case &c) {
+    uint64_t h = c.h;
+    COUNT("near_valid");
+    if (!isValidCell(h)) return;
+    if (ref::valid_cell(h)) { DISCARD(); return; }
+    NONTRIVIAL();
+    int res = ref::res_of(h);
+    if (res == 0 || res > 15) { FAIL("valid-not-child", "isValidCell accepts %016llx, which is not one of the 122 resolution-0 cells / has no parent", (unsigned long long)h); return; }
+    H3Index par = 0;
+    CHECK(cellToParent(h, res - 1, &par) == E_SUCCESS, "parent", "cellToParent failed on an index isValidCell accepts");
+    int64_t n = 0;
+    CHECK(cellToChildrenSize(par, res, &n) == E_SUCCESS && n >= 1 && n <= 7, "size", "cellToChildrenSize wrong for the parent of an accepted index");
+    Guarded<H3Index> out((size_t)n);
+    CHECK(cellToChildren(par, res, out.p()) == E_SUCCESS && out.intact(), "children", "cellToChildren failed");
+    for (int64_t i = 0; i < n; i++) if (out[(size_t)i] == h) return;
+    FAIL("valid-not-child", "isValidCell accepts %016llx but its parent %016llx does not list it among its %lld children: a cell outside the tree", (unsigned long long)h, (unsigned long long)par, (long long)n);
+}
+
 static void check(const Case &c) {
     uint64_t h = c.h;
     int res = ref::res_of(h);
+    if (c.kind == 5) { checkNearValid(c); return; }
     if (!ref::valid_cell(h)) { DISCARD(); return; }
     if (c.kind == 0 || c.kind == 1) {
         int cres = c.p;
@@ -145,7 +167,20 @@ static void check(const Case &c) {
 
 static Case draw() {
     Case c;
-    c.kind = rpick({5, 3, 2, 2, 1});
+    c.kind = rpick({5, 3, 2, 2, 1, 1});
+    if (c.kind == 5) {
+        int r = ri(1, 15);
+        uint64_t h = rpick({2, 1}) == 0 ? gen::cellPentChain(r) : gen::cellRes(r).h;
+        int pos = ri(1, r);
+        if (rpick({2, 1}) == 0) {  // deleted sub-sequence: digits before pos zeroed, digit pos = 1, under a pentagon base cell
+            h = (h & ~(127ULL << 45)) | ((uint64_t)ref::PENT_BC[ri(0, 11)] << 45);
+            for (int q = 1; q < pos; q++) h &= ~(7ULL << (3 * (15 - q)));
+            h = (h & ~(7ULL << (3 * (15 - pos)))) | (1ULL << (3 * (15 - pos)));
+        } else
+            h |= 7ULL << (3 * (15 - pos));
+        c.h = h;
+        return c;
+    }
     // extra weight on pentagons at every res and on cells k levels below a pentagon
     int res;
     if (c.kind == 0) res = ri(0, 15);
@@ -167,6 +202,18 @@ static void enumerate(const std::string &tier, int shard, int nshards, const std
     int D = tier == "thorough" ? 8 : 6;
     long idx = 0;
     Case c;
+    {   // every pentagon base cell x every resolution x every position of the first non-zero digit: the deleted sub-sequence cell with a zero tail
+        int zero[16] = {0};
+        for (int b = 0; b < 12; b++)
+            for (int r = 1; r <= 15; r++)
+                for (int pos = 1; pos <= r; pos++) {
+                    if ((idx++ % nshards) != shard) continue;
+                    c.kind = 5;
+                    c.h = ref::make_cell(r, ref::PENT_BC[b], zero) | (1ULL << (3 * (15 - pos)));
+                    emit(c);
+                }
+        c = Case();
+    }
     H3Index r0[122];
     getRes0Cells(r0);
     for (int i = 0; i < 122; i++)
